@@ -41,6 +41,10 @@ type Addr struct {
 	Idx  string     // absolute element index (AElem)
 	Key  string     // heap key prefix: H.<type>.<field>[.<sub>] | E.<elemtype> | G.<pkg>.<name>
 	T    types.Type // type of the addressed location
+	// address of a field inside a struct-typed slice element: component range [CompLo, CompLo+CompN) of element type ElemT
+	ElemT  types.Type
+	CompLo int
+	CompN  int
 }
 
 type Val struct {
